@@ -208,7 +208,7 @@ parse_header(RPFrame *frame, void *buf, size_t n)
 static int
 check_payload(const RPFrame *f)
 {
-    if (regp_has_plcrc(f) == false || f->payload.size == 0u) {
+    if (regp_has_plcrc(f) == false) {
         return 0;
     }
 
